@@ -127,20 +127,41 @@ fn decode(tape: &[u32], tier: Tier) -> Case {
         }
         layers.iter_mut().for_each(strip);
     }
-    Case {
-        spec: NetSpec { input, layers },
-        kind,
-        batch: t.usize(2, if big { 32 } else { 12 }),
-        ntrain: t.usize(8, if big { 120 } else { 40 }),
-        neval: if t.chance(1, 3) { t.usize(261, if big { 1200 } else { 700 }) } else { t.usize(65, if big { 400 } else { 260 }) },
-        epochs: t.usize(1, 3) as i32,
-        wseed: t.raw(),
-        dseed: t.raw(),
-        schedules,
-        connects,
-        eval_scale,
-        loops,
+    let (batch, ntrain, neval, epochs, wseed, dseed) = (
+        t.usize(2, if big { 32 } else { 12 }),
+        t.usize(8, if big { 120 } else { 40 }),
+        if t.chance(1, 3) { t.usize(261, if big { 1200 } else { 700 }) } else { t.usize(65, if big { 400 } else { 260 }) },
+        t.usize(1, 3) as i32,
+        t.raw(),
+        t.raw(),
+    );
+    // (drawn last) one case in two: behind the first layer a pair of same-size convolutions / deconvolutions, the
+    // first with 3-6 filters, the second back to the channel count - layers with several filters that are not the
+    // first layer, so that their input gradients (sums over filters) matter for the weights in front of them
+    if t.chance(1, 2) {
+        let c1 = match &layers[0] { LayerSpec::Conv { cfg, .. } | LayerSpec::Deconv { cfg, .. } => cfg.filters, _ => unreachable!() };
+        let many = t.usize(3, 6);
+        let mut l1 = gen_same_size(&mut t, many, input[1], input[2], &o);
+        let mut l2 = gen_same_size(&mut t, c1, input[1], input[2], &o);
+        if eval_scale != 1.0 {
+            for l in [&mut l1, &mut l2] {
+                if let LayerSpec::Conv { act, .. } | LayerSpec::Deconv { act, .. } = l {
+                    if matches!(act, ActK::Sigmoid | ActK::Softmax) {
+                        *act = ActK::Leaky;
+                    }
+                }
+            }
+        }
+        layers.insert(1, l1);
+        layers.insert(2, l2);
+        for c in connects.iter_mut() {
+            *c = (c.0 + 2, c.1 + 2);
+        }
+        for l in loops.iter_mut() {
+            *l = (l.0 + 2, l.1 + 2, l.2);
+        }
     }
+    Case { spec: NetSpec { input, layers }, kind, batch, ntrain, neval, epochs, wseed, dseed, schedules, connects, eval_scale, loops }
 }
 
 #[derive(PartialEq, Debug)]
@@ -206,7 +227,7 @@ fn run_once(case: &Case, threads: usize, delay_seed: u32, decoy: bool, data: &(V
     neurons::verif::set_delay_plan(plan);
     let r = pool.install(|| {
         catch(std::panic::AssertUnwindSafe(|| {
-            let (tl, vl, va) = net.learn(&txr, &tyr, Some((&exr, &eyr, 1000)), case.batch, case.epochs, None);
+            let (tl, vl, va) = net.learn(&txr, &tyr, Some((&exr, &eyr, 1000)), case.batch, case.epochs, if case.dseed % 4 == 0 { Some(1 + (case.dseed >> 3) as i32 % 2) } else { None });
             let v = net.validate(&exvr, &eyr, 0.05);
             let pb = net.predict_batch(&exvr);
             (tl, vl, va, v, pb)
@@ -383,7 +404,7 @@ impl Prop for C05 {
         1 // the delay plan is process-global; schedules are run one after the other
     }
     fn rule(&self) -> String {
-        "tape-decoded network containing a convolution, optionally a spatial feedback block, a deconvolution and a max-pool, a dense layer, optionally a flat feedback block (with and without skips, 2-4 loops), optionally two more dense layers with skip connections from a shared source or with a loop connection over the first of them (which then carries dropout), and a final dense layer (linear / sigmoid / soft-max); evaluation inputs optionally scaled to 1e-39 (subnormal intermediates), in one case of six one input of the stand-alone validate / predict_batch calls holds a NaN; dropout on some layers; one of five optimizers; batch 2..12 (thorough 32), 8..40 (120) training samples, 65..260 (400) evaluation inputs, in one case of three 261..700 (1200) (more than one 64-chunk), non-dyadic data, 1-3 epochs with validation data. Schedules per case: 5 (thorough 10) draws from dedicated rayon pools with {2, 3, 5, 8, 16, 32, 48} threads, every second one with a tape-derived delay plan (0-200 us sleeps at the per-sample / per-prediction hooks), every third one on a pool whose threads first served a decoy network (same layer list and downstream shapes, other weights and inputs, first-layer geometry shifted by one padding step), plus a repetition of the 1-thread run. Oracle: to_bits equality of train / validation loss vectors, accuracies, all final weights, validate() and predict_batch() in order against the 1-thread run; every run builds a fresh network. Non-trivial: batch >= 4, > 64 evaluation inputs, >= 2 threads. Distinct = (architecture, batch, sizes, schedule list).".into()
+        "tape-decoded network containing a convolution, in half of the cases followed by a pair of shape-preserving convolutions / deconvolutions with 3-6 and then the original number of filters (layers with several filters that are not the first layer), optionally a spatial feedback block, a deconvolution and a max-pool, a dense layer, optionally a flat feedback block (with and without skips, 2-4 loops), optionally two more dense layers with skip connections from a shared source or with a loop connection over the first of them (which then carries dropout), and a final dense layer (linear / sigmoid / soft-max); evaluation inputs optionally scaled to 1e-39 (subnormal intermediates), in one case of six one input of the stand-alone validate / predict_batch calls holds a NaN; dropout on some layers; one of five optimizers; batch 2..12 (thorough 32), 8..40 (120) training samples, 65..260 (400) evaluation inputs, in one case of three 261..700 (1200) (more than one 64-chunk), non-dyadic data, 1-3 epochs with validation data, in one case of four with progress printouts requested (every epoch or every second one; the same for all runs of a case). Schedules per case: 5 (thorough 10) draws from dedicated rayon pools with {2, 3, 5, 8, 16, 32, 48} threads, every second one with a tape-derived delay plan (0-200 us sleeps at the per-sample / per-prediction hooks), every third one on a pool whose threads first served a decoy network (same layer list and downstream shapes, other weights and inputs, first-layer geometry shifted by one padding step), plus a repetition of the 1-thread run. Oracle: to_bits equality of train / validation loss vectors, accuracies, all final weights, validate() and predict_batch() in order against the 1-thread run; every run builds a fresh network. Non-trivial: batch >= 4, > 64 evaluation inputs, >= 2 threads. Distinct = (architecture, batch, sizes, schedule list).".into()
     }
     fn assumptions(&self) -> Vec<String> {
         vec!["rayon's work-stealing decisions are not owned by the harness: thread counts, repetitions and injected delays are explored, not interleavings; a pass means no dependence was observed".into()]
